@@ -6,8 +6,8 @@ From Coq Require Import Arith.
 From DippyV Require Import Base.Str Base.Verdict Model.Logging Proofs.LoggingP Proofs.JsonP Proofs.LogLineP Proofs.AppendP.
 
 (* the tie: the except clauses and the raiseExceptions setting read from the working tree are those of
-   [head] (today's code) or of [quiet] (today's code plus the proposed stderr repair) *)
-Theorem C15_tables_tie : catches_agree current head = true \/ catches_agree current quiet = true.
+   [head], the table every theorem below speaks about *)
+Theorem C15_tables_tie : catches_agree current head = true.
 Proof. exact tables_tie. Qed.
 Print Assumptions C15_tables_tie.
 
@@ -48,20 +48,19 @@ Theorem C15_setup_hypothesis_refuted :
   exists i f, r_exit (hook_run head f [] i) <> r_exit (run_nolog i) /\ r_stdout (hook_run head f [] i) <> r_stdout (run_nolog i).
 Proof. exact setup_unrealistic_refuted. Qed.
 Print Assumptions C15_setup_hypothesis_refuted.
-(* stderr is NOT the same: a failing approvals sink makes the logging module print a traceback per
-   record (logging.raiseExceptions).  Full statement "no traceback on stderr, whatever the sinks do"
-   (forall i f, realistic f -> r_tracebacks (run head f ts i) = 0) is false of today's code: *)
+(* stderr too: whatever the sinks do, the logging module prints no traceback (1aa56d9), stdout and
+   exit being those of the run with logging off *)
+Theorem C15_no_traceback : forall f ts i, realistic f ->
+  r_tracebacks (hook_run head f ts i) = 0%nat /\
+  r_stdout (hook_run head f ts i) = r_stdout (run_nolog i) /\ r_exit (hook_run head f ts i) = r_exit (run_nolog i).
+Proof. exact no_traceback. Qed.
+Print Assumptions C15_no_traceback.
+(* the code before 1aa56d9 (table [loud]: logging.raiseExceptions at its default) printed one
+   "--- Logging error ---" traceback per record when the approvals sink failed *)
 Theorem C15_traceback_refuted :
-  exists i f, realistic f /\ r_tracebacks (hook_run head f [] i) <> r_tracebacks (run_nolog i).
+  exists i f, realistic f /\ r_tracebacks (hook_run loud f [] i) <> r_tracebacks (run_nolog i).
 Proof. exact traceback_refuted. Qed.
 Print Assumptions C15_traceback_refuted.
-(* with the proposed repair (setup_logging sets logging.raiseExceptions = False; table [quiet]) the full
-   statement holds, stdout and exit still being those of the run with logging off *)
-Theorem C15_no_traceback_repaired : forall f ts i, realistic f ->
-  r_tracebacks (hook_run quiet f ts i) = 0%nat /\
-  r_stdout (hook_run quiet f ts i) = r_stdout (run_nolog i) /\ r_exit (hook_run quiet f ts i) = r_exit (run_nolog i).
-Proof. exact quiet_no_traceback. Qed.
-Print Assumptions C15_no_traceback_repaired.
 
 (* When the decision log works (the approvals log may fail in any way), a decision appends exactly
    one line; the line is printable ASCII with its only newline at the end, an RFC 8259 reader gives
@@ -129,7 +128,7 @@ Print Assumptions C15_interleave_chunked_refuted.
 Example C15_example_faulty :
   let f : faults := fun s k => match s with Emit | DecWrite => Some EOS | _ => None end in
   r_stdout (hook_run head f $"T" a_check) = [OEnv Claude Allow $"ls"] /\ r_declog (hook_run head f $"T" a_check) = [] /\
-  r_tracebacks (hook_run head f $"T" a_check) = 3%nat.
+  r_tracebacks (hook_run head f $"T" a_check) = 0%nat /\ r_tracebacks (hook_run loud f $"T" a_check) = 3%nat.
 Proof. vm_compute. repeat split. Qed.
 Example C15_example_full :
   let i := {| h_json_ok := true; h_explicit := false; h_mode := Claude; h_unknown_tool := false;
